@@ -2,8 +2,9 @@
 //
 // Data-structure invariant + abstract view: every operation `requires wf` on its inputs and
 // `ensures wf && view == op(views)`; induction over the operation history then gives C08 for histories of any length.
-// `MontyParams::wf` states that every field equals its definition; `lemma_params_unique` shows that wf determines
-// every field from the modulus, i.e. any two constructors that establish wf return identical parameter sets.
+// `MontyParams::wf` states that every field equals its definition; `lemma_params_unique` / `lemma_constructors_agree`
+// show that the postcondition of the constructors determines every field from the modulus, i.e. the constructors
+// return identical parameter sets.
 //
 // FINDING (C08, modulus m == 1): `MontyParams::new_vartime` (and `new`, same expression) compute
 // `one = ((R - 1) mod m) + 1`, which is R mod m for every odd m >= 3 (R is a unit mod m, lemma_one_def) but is 1,
@@ -107,13 +108,17 @@ impl<const LIMBS: usize> MontyForm<LIMBS> {
 
 // ---- lemmas
 
-/// wf determines every field: two well-formed parameter sets for the same modulus value are equal field by field
-/// (this is what makes the constant-time, vartime and compile-time constructors agree)
+/// what the runtime constructors return for `modulus`: every field but `one` equals its definition (wf_rest);
+/// `one` is R mod m, except that the code yields 1 for m == 1 (see FINDING in the header)
+pub open spec fn params_for<const LIMBS: usize>(p: MontyParams<LIMBS>, modulus: Odd<Uint<LIMBS>>) -> bool {
+    p.modulus == modulus && p.wf_rest()
+        && p.one.v() == (if modulus.0.v() == 1 { 1 } else { bp(LIMBS as nat) % modulus.0.v() })
+}
+
+/// wf_rest (plus the value of `one`) determines every field from the modulus
 pub proof fn lemma_params_unique<const LIMBS: usize>(a: MontyParams<LIMBS>, b: MontyParams<LIMBS>)
-    requires a.wf(), b.wf(), a.modulus.0.v() == b.modulus.0.v()
-    ensures a.modulus.0.limbs@ =~= b.modulus.0.limbs@, a.one.limbs@ =~= b.one.limbs@, a.r2.limbs@ =~= b.r2.limbs@, a.r3.limbs@ =~= b.r3.limbs@,
-        a.mod_neg_inv == b.mod_neg_inv, a.mod_leading_zeros == b.mod_leading_zeros,
-        a == b
+    requires a.wf_rest(), b.wf_rest(), a.modulus.0.v() == b.modulus.0.v(), a.one.v() == b.one.v()
+    ensures a == b
 {
     let n = LIMBS as nat;
     lemma_val_inj(a.modulus.0.limbs@, b.modulus.0.limbs@, n);
@@ -131,6 +136,23 @@ pub proof fn lemma_params_unique<const LIMBS: usize>(a: MontyParams<LIMBS>, b: M
     assert(a.r2.limbs =~= b.r2.limbs);
     assert(a.r3.limbs =~= b.r3.limbs);
     assert(a.mod_neg_inv.0 == b.mod_neg_inv.0);
+}
+
+/// two well-formed parameter sets for the same modulus value are equal
+pub proof fn lemma_params_wf_unique<const LIMBS: usize>(a: MontyParams<LIMBS>, b: MontyParams<LIMBS>)
+    requires a.wf(), b.wf(), a.modulus.0.v() == b.modulus.0.v()
+    ensures a == b
+{
+    lemma_params_unique(a, b);
+}
+
+/// the constant-time and the vartime constructor (both `ensures params_for(ret, modulus)`) return identical
+/// parameter sets, for every odd modulus including 1
+pub proof fn lemma_constructors_agree<const LIMBS: usize>(a: MontyParams<LIMBS>, b: MontyParams<LIMBS>, modulus: Odd<Uint<LIMBS>>)
+    requires params_for(a, modulus), params_for(b, modulus)
+    ensures a == b
+{
+    lemma_params_unique(a, b);
 }
 
 /// k * m0 == -1 (mod B) has at most one solution k in [0, B)
@@ -324,7 +346,7 @@ impl<const LIMBS: usize> MontyParams<LIMBS> {
 pub const fn new_vartime(modulus: Odd<Uint<LIMBS>>) -> (ret__: Self)
 //@+
     requires LIMBS < 0x400_0000, modulus.0.v() % 2 == 1
-    ensures ret__.modulus == modulus, ret__.wf_rest(),
+    ensures params_for(ret__, modulus), ret__.modulus == modulus, ret__.wf_rest(),
         modulus.0.v() != 1 ==> ret__.wf(),
         // the code yields one == 1 (not R mod m == 0) for the modulus 1: see FINDING in the unit header
         modulus.0.v() == 1 ==> ret__.one.v() == 1
